@@ -572,20 +572,20 @@ def _set_focus_old(nd, env):
 
 _mk_container(
     "Pile", "flow", "flow",
-    lambda kids, typ: urwid.Pile([kids[0], urwid.Edit("s:", "sib"), urwid.Text("p3")]),
+    lambda kids, typ: urwid.Pile([kids[0], urwid.Edit("s:", "sib", edit_pos=0), urwid.Text("p3")]),
     extra={"set_focus": _set_focus_old},
     keys=("down", "up"), mouse=((1, 1, 1),),
 )
 _mk_container(
     "PileB", "box", "box",
-    lambda kids, typ: urwid.Pile([("weight", 1, kids[0]), ("pack", urwid.Edit("s:", "sib")), ("given", 1, urwid.SolidFill("-"))]),
+    lambda kids, typ: urwid.Pile([("weight", 1, kids[0]), ("pack", urwid.Edit("s:", "sib", edit_pos=0)), ("given", 1, urwid.SolidFill("-"))]),
     extra={"options0": _pile_opt_toggle},
     opts=lambda nd: nd.w.options("weight", 1),
     keys=("down", "up"), mouse=((1, 1, 3),),
 )
 _mk_container(
     "Columns", "flow", "flow",
-    lambda kids, typ: urwid.Columns([kids[0], ("weight", 1, urwid.Edit("s:", "sib")), (2, urwid.Text("c3"))], dividechars=1),
+    lambda kids, typ: urwid.Columns([kids[0], ("weight", 1, urwid.Edit("s:", "sib", edit_pos=0)), (2, urwid.Text("c3"))], dividechars=1),
     extra={"options0": _cols_opt_toggle, "set_focus": _set_focus_old},
     keys=("right", "left"), mouse=((1, 5, 0),),
 )
@@ -724,7 +724,7 @@ KINDS["FrameH"] = Kind("FrameH", "box", ("flow",), _frame_build("header"), list(
 
 
 def _ov_params(nd, env):
-    a = nd.cyc("p", [("left", ("relative", 50), "top", nd.x["h"]), ("right", 5, "bottom", nd.x["h"]), ("center", ("relative", 70), "middle", nd.x["h"])])
+    a = nd.cyc("p", [("left", ("relative", 90), "top", nd.x["h"]), ("right", 8, "bottom", nd.x["h"]), ("center", ("relative", 80), "middle", nd.x["h"])])
     nd.w.set_overlay_parameters(*a)
 
 
@@ -738,20 +738,12 @@ def _ov_bottom(nd, env):
     nd.w.contents[0] = (env.box(), nd.w.contents[0][1])
 
 
-def _ov_top_w(nd, env):
-    on = nd.n.get("swapped", False)
-    nd.n["swapped"] = not on
-    nd.w.top_w = nd.kids[0].w if on else env.of(nd.x["ctyp"])
-
-
-def _ov_bottom_w(nd, env):
-    nd.w.bottom_w = env.box()
-
-
-_OV_MUTS = [("set_overlay_parameters", _ov_params), ("contents1", _ov_top), ("contents0", _ov_bottom), ("top_w", _ov_top_w), ("bottom_w", _ov_bottom_w)]
+# Overlay.top_w / Overlay.bottom_w are plain attributes (no setter): assigning them is not a mutator
+# call under the reading adopted above, so they are not in the alphabet (contents[0]/[1] are).
+_OV_MUTS = [("set_overlay_parameters", _ov_params), ("contents1", _ov_top), ("contents0", _ov_bottom)]
 KINDS["Overlay"] = Kind(
     "Overlay", "box", ("flow",),
-    lambda kids, typ: (urwid.Overlay(kids[0], urwid.SolidFill("."), "center", ("relative", 70), "middle", "pack"), {"h": "pack"}),
+    lambda kids, typ: (urwid.Overlay(kids[0], urwid.SolidFill("."), "center", ("relative", 80), "middle", "pack"), {"h": "pack"}),
     _OV_MUTS, (), ((1, 3, 1),),
 )
 KINDS["OverlayB"] = Kind(
@@ -793,7 +785,7 @@ def paths(spec, pre=()):
 
 
 def sizes_for(typ):
-    return [(9,), (14,)] if typ == "flow" else [(9, 4), (14, 7)]
+    return [(9,), (14,)] if typ == "flow" else [(10, 6), (15, 9)]
 
 
 def alphabet(spec, tier):
@@ -828,11 +820,15 @@ def alphabet(spec, tier):
     return steps
 
 
-def observations(spec):
+def observations(spec, tier="thorough"):
     typ = _typ_of(spec)
-    obs = [("render", 0, True), ("render", 0, False), ("render", 1, True), ("render", 1, False)]
+    obs = [("render", 0, True), ("render", 0, False), ("render", 1, True)]
+    if tier != "quick":
+        obs.append(("render", 1, False))
     if typ == "flow":
-        obs += [("rows", 0, True), ("rows", 1, False)]
+        obs.append(("rows", 0, True))
+        if tier != "quick":
+            obs.append(("rows", 1, False))
     return obs
 
 
@@ -895,7 +891,7 @@ class World:
         except Exception as e:  # noqa: BLE001
             return ("raised", type(e).__name__, str(e)[:120])
         if ob[0] == "render":
-            return snap(r)
+            return self.held[-1][1] if take_snap else snap(r)
         return ("rows", r)
 
     def close(self):
@@ -919,9 +915,9 @@ def _fmt(o):
     return {"cols": cols, "rows": rows, "cursor": list(cursor) if cursor else None, "text": ["".join(seg[1] for seg in ln) for ln in lines], "attr": [[seg[0] for seg in ln] for ln in lines]}
 
 
-def evaluate(spec, hist):
-    """Run one history in both worlds.  Returns dict(trivial, render=[(ob, a, b)], rows=[...], handed_ok, handed_detail, step_exc)."""
-    obs = observations(spec)
+def evaluate(spec, hist, tier="thorough"):
+    """Run one history in both worlds.  Returns dict(trivial, render=[(ob, a, b)], rows=[...], handed_bad, step_exc)."""
+    obs = observations(spec, tier)
     A = World(spec)
     try:
         A.run_history(hist)
@@ -968,8 +964,8 @@ def _first_diff(triples):
     return None
 
 
-def fails(spec, hist, clause):
-    r = evaluate(spec, hist)
+def fails(spec, hist, clause, tier="thorough"):
+    r = evaluate(spec, hist, tier)
     if r["trivial"]:
         return False
     if clause == "handed-out-unchanged":
@@ -977,7 +973,7 @@ def fails(spec, hist, clause):
     return _first_diff(r["render" if clause == "cached-equals-fresh" else "rows"]) is not None
 
 
-def shrink(spec, hist, clause):
+def shrink(spec, hist, clause, tier="thorough"):
     """Greedy one-step-removal minimisation (each candidate is re-run against the real code)."""
     hist = list(hist)
     changed = True
@@ -985,7 +981,7 @@ def shrink(spec, hist, clause):
         changed = False
         for i in range(len(hist)):
             cand = hist[:i] + hist[i + 1 :]
-            if fails(spec, cand, clause):
+            if fails(spec, cand, clause, tier):
                 hist = cand
                 changed = True
                 break
@@ -1006,11 +1002,11 @@ def signature(spec, hist):
             sig.append(f"mouse:{st[2]}")
         elif st[0] == "gc":
             sig.append("gc")
-    return "+".join(sig) if sig else "renders-only"
+    return "+".join(sig) if sig else "renders-only:" + spec_str(spec)
 
 
-def _detail(spec, hist, clause, r, minimal=None):
-    d = {"tree": spec, "history": [list(map(_j, st)) for st in hist], "sizes": [list(s) for s in sizes_for(_typ_of(spec))], "clause": clause}
+def _detail(spec, hist, clause, r, minimal=None, tier="thorough"):
+    d = {"obs_tier": tier, "tree": spec, "history": [list(map(_j, st)) for st in hist], "sizes": [list(s) for s in sizes_for(_typ_of(spec))], "clause": clause}
     if minimal is not None:
         d["minimal_history"] = [list(map(_j, st)) for st in minimal]
         d["signature"] = signature(spec, minimal)
@@ -1121,63 +1117,87 @@ def trees_of_depth(d):
 
 
 def select_trees(tier, seed):
-    """-> list of (spec, hist_len, mode) ; mode 'full' = exhaustive over the tier's alphabet,
-    ('sample', n) = n seeded random histories of length hist_len (exhaustive below that length - 1)."""
+    """-> list of plans (spec, alphabet_tier, max_len, mode); mode 'full' = every admissible history of
+    length 1..max_len over the alphabet, ('sample', n) = n seeded random histories of length max_len."""
     r = rng(seed)
     d0, d1, d2 = trees_of_depth(0), trees_of_depth(1), trees_of_depth(2)
     plan = []
     if tier == "quick":
-        plan += [(t, 3, "full") for t in d0]
-        # depth 1: every inner kind as root with two leaves chosen round-robin, so that every leaf is
-        # covered under several roots
+        plan += [(t, "quick", 3, "full") for t in d0]
+        plan += [(t, "quick", 2, "full") for t in d1]
+        # length 3 on depth-1 trees: every inner kind once as root, leaves round-robin
         fl = [t for t in d0 if _typ_of(t) == "flow"]
         bx = [t for t in d0 if _typ_of(t) == "box"]
         i = j = 0
         for n in INNER:
             slot = KINDS[n].slots[0]
-            picks = []
-            if slot in ("flow", "any"):
-                picks.append(fl[i % len(fl)])
-                i += 1
-            if slot in ("box", "any"):
-                picks.append(bx[j % len(bx)])
+            if slot == "box" or (slot == "any" and (i + j) % 4 == 3):
+                leaf = bx[j % len(bx)]
                 j += 1
-            if slot == "flow":
-                picks.append(fl[i % len(fl)])
+            else:
+                leaf = fl[i % len(fl)]
                 i += 1
-            for p in picks:
-                plan.append(([n, [p]], 3, "full"))
-        # depth 2: seeded choice, every inner kind once as the middle node
+            plan.append(([n, [leaf]], "quick", 3, ("sample", 300)))
+        # depth 2: seeded choice, every inner kind four times as the middle node
         by_mid = {}
         for t in d2:
             by_mid.setdefault(t[1][0][0], []).append(t)
         for mid in INNER:
             c = by_mid.get(mid, [])
-            if c:
-                plan.append((c[r.randrange(len(c))], 2, "full"))
+            for t in r.sample(c, min(3, len(c))):
+                plan.append((t, "quick", 2, "full"))
         return plan
     d3 = trees_of_depth(3)
-    plan += [(t, 4, "full") for t in d0]
-    plan += [(t, 3, "full") for t in d1]
-    plan += [(t, 4, ("sample", 150)) for t in d1]
-    for t in r.sample(d2, min(len(d2), 260)):
-        plan.append((t, 2, "full"))
-        plan.append((t, 3, ("sample", 250)))
+    plan += [(t, "thorough", 3, "full") for t in d0]
+    plan += [(t, "quick", 4, ("sample", 3000)) for t in d0]
+    plan += [(t, "thorough", 2, "full") for t in d1]
+    # length 3 exhaustive (reduced alphabet) on a covering set: every root kind and every leaf kind
+    cover, seen_root, seen_leaf = [], set(), set()
+    for t in r.sample(d1, len(d1)):
+        if t[0] not in seen_root or t[1][0][0] not in seen_leaf:
+            cover.append(t)
+            seen_root.add(t[0])
+            seen_leaf.add(t[1][0][0])
+    cover_keys = {spec_str(t) for t in cover}
+    for t in d1:
+        if spec_str(t) in cover_keys:
+            plan.append((t, "quick", 3, "full"))
+        else:
+            plan.append((t, "quick", 3, ("sample", 600)))
+        plan.append((t, "thorough", 4, ("sample", 150)))
+    for t in r.sample(d2, min(len(d2), 300)):
+        plan.append((t, "quick", 2, "full"))
+        plan.append((t, "thorough", 3, ("sample", 150)))
     for t in r.sample(d3, min(len(d3), 200)):
-        plan.append((t, 2, "full"))
-        plan.append((t, 4, ("sample", 120)))
+        plan.append((t, "quick", 2, "full"))
+        plan.append((t, "thorough", 4, ("sample", 100)))
     return plan
 
 
-def histories(spec, tier, hist_len, mode, seed):
-    alpha = alphabet(spec, tier)
+def admissible(h):
+    """Declared reductions of the history space (each removes only histories whose check is implied by,
+    or identical to, another enumerated one):
+      * at least one render step (otherwise the cache is empty and both runs execute identical code);
+      * no immediately repeated identical render/rows/gc step;
+      * from length 3 on, the last step is not a render/rows (the observations that follow are renders
+        and rows themselves; render/rows in the middle of a history are all kept)."""
+    L = len(h)
+    if not any(st[0] == "render" for st in h):
+        return False
+    if any(h[i] == h[i + 1] and h[i][0] in ("render", "rows", "gc") for i in range(L - 1)):
+        return False
+    if L >= 3 and h[-1][0] in ("render", "rows"):
+        return False
+    return True
+
+
+def histories(spec, alpha_tier, max_len, mode, seed):
+    alpha = alphabet(spec, alpha_tier)
     if mode == "full":
-        for L in range(1, hist_len + 1):
+        for L in range(1, max_len + 1):
             for h in itertools.product(alpha, repeat=L):
-                # declared reduction: no immediately repeated identical render/rows/gc step
-                if any(h[i] == h[i + 1] and h[i][0] in ("render", "rows", "gc") for i in range(L - 1)):
-                    continue
-                yield h
+                if admissible(h):
+                    yield h
     else:
         # a per-tree deterministic stream: mix the seed with a stable hash of the tree string
         s = 0
@@ -1185,11 +1205,18 @@ def histories(spec, tier, hist_len, mode, seed):
             s = (s * 131 + ord(ch)) % 2147483647
         r = rng(seed * 7 + s)
         renders = [a for a in alpha if a[0] == "render"]
+        seen = set()
         for _ in range(mode[1]):
-            h = [alpha[r.randrange(len(alpha))] for _ in range(hist_len)]
-            # make sure something gets cached early, otherwise most samples are trivial
-            h[r.randrange(2)] = renders[r.randrange(len(renders))]
-            yield tuple(h)
+            for _try in range(20):
+                h = [alpha[r.randrange(len(alpha))] for _ in range(max_len)]
+                # make sure something gets cached early, otherwise most samples are trivial
+                h[r.randrange(2)] = renders[r.randrange(len(renders))]
+                h = tuple(h)
+                key = repr(h)
+                if admissible(h) and key not in seen:
+                    seen.add(key)
+                    yield h
+                    break
 
 
 MAX_FAIL_PER_TREE = 6
@@ -1197,8 +1224,9 @@ MAX_FAIL_PER_TREE = 6
 
 def work(task):
     """One tree: returns counters and (shrunk) failures per clause."""
-    idx, spec, tier, hist_len, mode, seed = task
+    idx, spec, tier, hist_len, mode, seed, do_final = task
     t0 = time.process_time()
+    gc.freeze()  # gc.collect() steps then only look at objects created from here on (undone below)
     res = {
         "idx": idx, "spec": spec, "mode": "full" if mode == "full" else "sample",
         "n": {"cached-equals-fresh": 0, "rows-cached-equals-fresh": 0, "handed-out-unchanged": 0},
@@ -1209,39 +1237,42 @@ def work(task):
     }
     flow = _typ_of(spec) == "flow"
     seen_sig = {}
-    with _Guard():
-        for h in histories(spec, tier, hist_len, mode, seed):
-            r = evaluate(spec, h)
-            for st, en in r["step_exc"]:
-                k = f"{spec_str(spec)}:{st}:{en}"
-                res["step_exc"][k] = res["step_exc"].get(k, 0) + 1
-            clauses = ["cached-equals-fresh", "handed-out-unchanged"] + (["rows-cached-equals-fresh"] if flow else [])
-            for cl in clauses:
-                res["n"][cl] += 1
-            if r["trivial"]:
-                continue
-            for ob, a, b in r["render"] + r["rows"]:
-                if a[0] == "raised" and b[0] == "raised":
-                    k = f"{spec_str(spec)}:{a[1]}:{a[2][:60]}"
-                    res["both_raise"][k] = res["both_raise"].get(k, 0) + 1
-            for cl in clauses:
-                res["nontrivial"][cl] += 1
-                bad = (r["handed_bad"] is not None) if cl == "handed-out-unchanged" else (_first_diff(r["render" if cl == "cached-equals-fresh" else "rows"]) is not None)
-                if not bad:
+    try:
+        with _Guard():
+            for h in histories(spec, tier, hist_len, mode, seed):
+                r = evaluate(spec, h, tier)
+                for st, en in r["step_exc"]:
+                    k = f"{spec_str(spec)}:{st}:{en}"
+                    res["step_exc"][k] = res["step_exc"].get(k, 0) + 1
+                clauses = ["cached-equals-fresh", "handed-out-unchanged"] + (["rows-cached-equals-fresh"] if flow else [])
+                for cl in clauses:
+                    res["n"][cl] += 1
+                if r["trivial"]:
                     continue
-                res["nfail"][cl] += 1
-                if res["nfail"][cl] <= 60:
-                    mini = shrink(spec, h, cl)
-                    sig = signature(spec, mini)
-                else:
-                    mini, sig = None, "(not minimised)"
-                g = f"{cl}|{sig}"
-                res["groups"][g] = res["groups"].get(g, 0) + 1
-                if mini is not None and seen_sig.get(g, 0) < 1 and len(res["fail"][cl]) < MAX_FAIL_PER_TREE:
-                    seen_sig[g] = seen_sig.get(g, 0) + 1
-                    res["fail"][cl].append(_detail(spec, h, cl, r, mini))
-        if mode == "full":
-            res["final"] = finalized_cases(spec)
+                for ob, a, b in r["render"] + r["rows"]:
+                    if a[0] == "raised" and b[0] == "raised":
+                        k = f"{spec_str(spec)}:{a[1]}:{a[2][:60]}"
+                        res["both_raise"][k] = res["both_raise"].get(k, 0) + 1
+                for cl in clauses:
+                    res["nontrivial"][cl] += 1
+                    bad = (r["handed_bad"] is not None) if cl == "handed-out-unchanged" else (_first_diff(r["render" if cl == "cached-equals-fresh" else "rows"]) is not None)
+                    if not bad:
+                        continue
+                    res["nfail"][cl] += 1
+                    if res["nfail"][cl] <= 25:
+                        mini = shrink(spec, h, cl, tier)
+                        sig = signature(spec, mini)
+                    else:
+                        mini, sig = None, "(not minimised)"
+                    g = f"{cl}|{sig}"
+                    res["groups"][g] = res["groups"].get(g, 0) + 1
+                    if mini is not None and seen_sig.get(g, 0) < 1 and len(res["fail"][cl]) < MAX_FAIL_PER_TREE:
+                        seen_sig[g] = seen_sig.get(g, 0) + 1
+                        res["fail"][cl].append(_detail(spec, h, cl, r, mini, tier))
+            if do_final:
+                res["final"] = finalized_cases(spec)
+    finally:
+        gc.unfreeze()
     res["cpu"] = time.process_time() - t0
     return res
 
@@ -1263,35 +1294,48 @@ class _Counted:
 def run(tier="quick", seed=0):
     t_start = time.time()
     plan = select_trees(tier, seed)
-    tasks = [(i, spec, tier, L, mode, seed) for i, (spec, L, mode) in enumerate(plan)]
+    tasks, seen_tree = [], set()
+    for i, (spec, atier, L, mode) in enumerate(plan):
+        tasks.append((i, spec, atier, L, mode, seed, spec_str(spec) not in seen_tree))
+        seen_tree.add(spec_str(spec))
+
+    def cost(t):  # rough size of a plan, only used to start the big ones first
+        n = len(alphabet(t[1], t[2]))
+        return n ** t[3] if t[4] == "full" else t[4][1] * 3
+
+    order = sorted(tasks, key=cost, reverse=True)
     nproc = min(16, os.cpu_count() or 1, len(tasks))
+    if multiprocessing.current_process().daemon:
+        nproc = 1  # a daemonic pool worker may not have children; run in-process
     if nproc > 1:
         ctx = multiprocessing.get_context("fork")
         with ctx.Pool(nproc) as pool:
-            results = list(pool.imap_unordered(work, tasks, chunksize=1))
+            results = list(pool.imap_unordered(work, order, chunksize=1))
     else:
-        results = [work(t) for t in tasks]
+        results = [work(t) for t in order]
     results.sort(key=lambda r: r["idx"])
 
-    nfull = sum(1 for r in results if r["mode"] == "full")
-    depth_desc = "depth <= 2 (12 leaves; every inner kind as root over 2-3 leaves; one seeded depth-2 tree per inner kind as middle node)" if tier == "quick" else "all depth-0/1 trees, seeded samples of 260 depth-2 and 200 depth-3 trees"
+    ntrees = len(seen_tree)
+    if tier == "quick":
+        scope = "all 12 leaves alone (histories <= 3 steps, exhaustive), all 204 root+leaf trees (<= 2 steps exhaustive; 300 seeded 3-step histories on one tree per root kind), 3 seeded root+middle+leaf trees per middle kind (<= 2 steps exhaustive)"
+    else:
+        scope = "all 12 leaves alone (<= 3 steps exhaustive over the full alphabet, 3000 seeded 4-step), all 204 root+leaf trees (<= 2 steps full alphabet exhaustive; 3 steps over the reduced alphabet exhaustive on a set covering every root and leaf kind, 600 seeded on the others; 150 seeded 4-step), 300 seeded depth-2 trees (<= 2 exhaustive, 150 seeded 3-step) and 200 seeded depth-3 trees (<= 2 exhaustive, 100 seeded 4-step)"
     bound = (
-        f"{len(KINDS)} widget kinds ({len(LEAVES)} leaves, {len(INNER)} decorations/containers), chain-shaped trees with fixed siblings, {depth_desc}; "
-        f"histories <= {3 if tier == 'quick' else 4} steps over render(2 sizes x focus)/rows/every mutator/keys/mouse/gc, exhaustive on {nfull} (tree, length) plans"
-        + ("" if tier == "quick" else ", seeded random longer histories on the rest")
-        + "; observed by 4 renders (+2 rows) at the end of every history in two runs (cache as-is / cleared first)"
+        f"{len(KINDS)} widget kinds ({len(LEAVES)} leaves, {len(INNER)} decorations/containers) in chain-shaped trees with fixed siblings, {ntrees} trees: {scope}; "
+        "steps = render(2 sizes x focus) / rows / every public mutator of every node / keys and mouse at the root / drop held canvases + gc.collect(); "
+        f"each history observed at its end by {3 if tier == 'quick' else 4} renders (+{1 if tier == 'quick' else 2} rows for flow roots) in two runs (cache as-is / CanvasCache.clear() first)"
     )
     checks = {}
     for cl in ("cached-equals-fresh", "rows-cached-equals-fresh", "handed-out-unchanged"):
         for mode in ("full", "sample"):
-            if tier == "quick" and mode == "sample":
-                continue
             name = f"{ID}/{cl}" + ("" if mode == "full" else "/sampled-histories")
             c = Check(name, RULES[cl], mode == "full", bound)
+            c.t0 = t_start
             c.nontrivial = _Counted()
             c.groups = {}
             checks[cl, mode] = c
     fin = Check(f"{ID}/finalized-refuse-mutation", RULES["finalized-refuse-mutation"], True, "every tree of the exhaustive plans rendered at 2 sizes x focus; every canvas in the returned canvas tree that carries widget_info x 12 mutators")
+    fin.t0 = t_start
     diag = {"step_exc": {}, "both_raise": {}}
     cpu = 0.0
     for r in results:
@@ -1340,7 +1384,8 @@ def replay(check_name, case):
         clause = case.get("clause") or check_name.split("/")[1]
         spec = case["tree"]
         hist = [tup(st) for st in case.get("minimal_history") or case["history"]]
-        r = evaluate(spec, hist)
+        tier = case.get("obs_tier", "thorough")
+        r = evaluate(spec, hist, tier)
         if r["trivial"]:
             return {"outcome": "not-reproduced", "detail": {"trivial": True}}
         if clause == "handed-out-unchanged":
@@ -1348,5 +1393,5 @@ def replay(check_name, case):
         else:
             bad = _first_diff(r["render" if clause == "cached-equals-fresh" else "rows"]) is not None
         if bad:
-            return {"outcome": "confirmed", "detail": _detail(spec, hist, clause, r)}
+            return {"outcome": "confirmed", "detail": _detail(spec, hist, clause, r, None, tier)}
         return {"outcome": "not-reproduced", "detail": {"history": [list(map(_j, st)) for st in hist]}}
